@@ -365,6 +365,26 @@ def main():
             items.append("  (%s, 4)" % qs(p))
     L.append(";\n".join(items))
     L.append("].\n")
+    # does a pointee / embedded record type contain an address-valued member (recursively)?
+    def has_ptr(tyname, depth=0):
+        if depth > 6: die("record nesting too deep: " + tyname)
+        if tyname.endswith("*"): return True
+        if tyname not in recs:
+            return tyname.startswith("struct ") or tyname.startswith("union ")   # no layout known: conservatively "may hold addresses"
+        for dpt, off, ty, nm in recs[tyname][1]:
+            if dpt != 0: continue
+            k, sz, pn = classify(ty, recs)
+            if k in ("KPtr", "KFunPtr"): return True
+            if k == "KStruct" and has_ptr(pn, depth + 1): return True
+            if k == "KArr":
+                base = re.sub(r"\[\d+\]$", "", pn).strip()
+                if base in recs and has_ptr(base, depth + 1): return True
+        return False
+    tys = sorted(set(ps) | {"struct reb_particle", "struct reb_vec3d", "struct reb_dp7", "struct reb_particle[4]"})
+    L.append("(* record / pointee type -> contains an address-valued member (recursively, from clang's record layouts) *)")
+    L.append("Definition type_has_pointer : list (string * bool) := [")
+    L.append(";\n".join("  (%s, %s)" % (qs(t), "true" if has_ptr(re.sub(r"\[\d+\]$", "", t).strip()) else "false") for t in tys))
+    L.append("].\n")
     L.append("Definition binary_field_size : N := %d." % bsize)
     L.append("Definition binary_field_type_off : N := %d." % bfields[0][1])
     L.append("Definition binary_field_size_off : N := %d." % bfields[1][1])
